@@ -385,6 +385,7 @@ def build_group(name, outdir):
     log = []
     parts = ['// GENERATED on every run by vlib/extract.py from %s -- do not edit' % REPO,
              '#![allow(unused_imports, unused_variables, unused_mut, dead_code, unused_parens, unused_braces, non_snake_case)]',
+             '#![feature(allocator_api)]',
              'use vstd::prelude::*;', g.get('uses', ''), 'verus! {', '']
     for t in g.get('theory', []):
         with open(os.path.join(VERIF, 'contracts', 'theory', t)) as f:
